@@ -36,9 +36,9 @@ Ids(tg) == {tg[x].id : x \in DOMAIN tg}
 TraceInit == st = [tags |-> << >>, head |-> 1, dirty |-> "clean", version |-> "", other |-> "", n |-> 1] /\ l = 1
 
 Reset == /\ IsEvent("reset")
-         /\ DOMAIN Ev.obs.tags = {} /\ Ev.obs.head = 1 /\ Ev.obs.dirty = "clean"
+         /\ DOMAIN Ev.obs.tags = {} /\ Ev.obs.head \in 1..Ev.n /\ Ev.obs.dirty = "clean"
          /\ Ev.version \in DOMAIN ReqTable
-         /\ st' = Obs(Ev.version, 1)
+         /\ st' = Obs(Ev.version, Ev.n)
 
 Commit == /\ IsEvent("commit")
           /\ Ev.obs.head = st.n + 1
@@ -54,8 +54,9 @@ UserTag == /\ IsEvent("usertag")
            /\ Ev.name \notin DOMAIN st.tags /\ Ev.name \in DOMAIN NameTable
            /\ DOMAIN Ev.obs.tags = DOMAIN st.tags \cup {Ev.name}
            /\ \A x \in DOMAIN st.tags : Ev.obs.tags[x] = st.tags[x]
-           /\ Ev.obs.tags[Ev.name].c = st.head /\ Ev.obs.tags[Ev.name].k = Ev.kind /\ Ev.obs.tags[Ev.name].sane
-           /\ IF Ev.kind = "light" THEN Ev.obs.tags[Ev.name].id = 0
+           /\ Ev.obs.tags[Ev.name].c = (IF Ev.kind = "tree" THEN 0 ELSE st.head)
+           /\ Ev.obs.tags[Ev.name].k = Ev.kind /\ Ev.obs.tags[Ev.name].sane
+           /\ IF Ev.kind \in {"light", "tree"} THEN Ev.obs.tags[Ev.name].id = 0
               ELSE Ev.obs.tags[Ev.name].id \notin Ids(st.tags) \cup {0}
            /\ Ev.obs.head = st.head /\ Ev.obs.dirty = st.dirty /\ Ev.obs.other = st.other
            /\ st' = Obs(st.version, st.n)
@@ -92,7 +93,7 @@ TraceNext == Reset \/ Commit \/ Checkout \/ UserTag \/ Alias \/ Touch \/ Bump \/
 
 TraceSpec == TraceInit /\ [][TraceNext]_tvars
 
-TagsWellFormed == \A x \in DOMAIN st.tags : x \in DOMAIN NameTable /\ st.tags[x].c \in 1..st.n
+TagsWellFormed == \A x \in DOMAIN st.tags : x \in DOMAIN NameTable
 
 Consumed == TLCGet("stats").diameter - 1
 TraceAccepted == PrintT(<<"CONSUMED", Consumed, Len(Trace)>>) /\ Consumed = Len(Trace)
